@@ -32,6 +32,9 @@ func (c *codegen) call(x *ast.CallExpr, want gtype) (string, gtype) {
 			}
 			return c.conv(c.typeOf(f, x), x.Args[0], x)
 		case "len":
+			if c.phase2 {
+				return c.lenCap("len", x)
+			}
 			if len(x.Args) != 1 {
 				c.fail(x, "len with %d arguments", len(x.Args))
 			}
@@ -40,6 +43,22 @@ func (c *codegen) call(x *ast.CallExpr, want gtype) (string, gtype) {
 				c.fail(x, "len of %s", t)
 			}
 			return "Int.ofNat " + paren(s) + ".length", gtype{kind: kInt}
+		case "cap":
+			if c.phase2 {
+				return c.lenCap("cap", x)
+			}
+		case "copy":
+			if c.phase2 {
+				return c.copyCall(x)
+			}
+		case "make":
+			if c.phase2 {
+				return c.makeCall(x)
+			}
+		case "append":
+			if c.phase2 {
+				return c.appendCall(x, "")
+			}
 		}
 		if ri := c.reflOf(f.Name); ri != nil {
 			if ri.setter {
@@ -50,6 +69,9 @@ func (c *codegen) call(x *ast.CallExpr, want gtype) (string, gtype) {
 		k := fnKey{"", f.Name}
 		if !c.whiteSet[k] {
 			c.fail(x, "call of non-whitelisted function %s", f.Name)
+		}
+		if c.phase2 {
+			return c.callValue(k, nil, x)
 		}
 		return c.callFn(k, "", x)
 	case *ast.SelectorExpr:
@@ -79,6 +101,13 @@ func (c *codegen) call(x *ast.CallExpr, want gtype) (string, gtype) {
 			c.fail(x, "call of %s", q)
 		}
 		// method call on a struct value
+		if c.phase2 {
+			k, recv, ok := c.calleeOf(x)
+			if !ok {
+				c.fail(x, "call %s", c.src(x))
+			}
+			return c.callValue(k, recv, x)
+		}
 		recv, t := c.expr(f.X, gtype{}, false)
 		if t.kind != kStruct {
 			c.fail(x, "method call %s on %s", f.Sel.Name, t)
@@ -168,6 +197,8 @@ func terminates(list []ast.Stmt) bool {
 	switch s := list[len(list)-1].(type) {
 	case *ast.ReturnStmt:
 		return true
+	case *ast.BranchStmt:
+		return true
 	case *ast.BlockStmt:
 		return terminates(s.List)
 	case *ast.IfStmt:
@@ -222,6 +253,9 @@ func rootIdent(e ast.Expr) *ast.Ident {
 // assignedOuter lists (in order of first occurrence) the variables declared
 // outside of the statement lists that are assigned inside of them.
 func (c *codegen) assignedOuter(at ast.Node, lists ...[]ast.Stmt) []string {
+	if c.phase2 {
+		return c.assignedOuter2(at, lists...)
+	}
 	var order []string
 	assigned := map[string]bool{}
 	declared := map[string]bool{}
@@ -369,11 +403,17 @@ func (c *codegen) seq(list []ast.Stmt, k cont) []string {
 		return k()
 	}
 	s, rest := list[0], list[1:]
+	if len(c.cur.pre) != 0 || len(c.cur.mutHoist) != 0 {
+		c.fail(s, "internal error: hoisted lines left over from the previous statement")
+	}
+	wrap := func(lines []string) []string {
+		return append(append(c.flush(s), lines...), c.seq(rest, k)...)
+	}
 	switch x := s.(type) {
 	case *ast.EmptyStmt:
 		return c.seq(rest, k)
 	case *ast.AssignStmt:
-		return append(c.assign(x), c.seq(rest, k)...)
+		return wrap(c.assign(x))
 	case *ast.IncDecStmt:
 		op := token.ADD
 		if x.Tok == token.DEC {
@@ -381,11 +421,11 @@ func (c *codegen) seq(list []ast.Stmt, k cont) []string {
 		}
 		one := &ast.BasicLit{ValuePos: x.Pos(), Kind: token.INT, Value: "1"}
 		lines := c.assign1(x.X, &ast.BinaryExpr{X: x.X, OpPos: x.Pos(), Op: op, Y: one}, false, x)
-		return append(lines, c.seq(rest, k)...)
+		return wrap(lines)
 	case *ast.DeclStmt:
-		return append(c.decl(x), c.seq(rest, k)...)
+		return wrap(c.decl(x))
 	case *ast.ExprStmt:
-		return append(c.exprStmt(x), c.seq(rest, k)...)
+		return wrap(c.exprStmt(x))
 	case *ast.ReturnStmt:
 		if len(rest) > 0 {
 			c.fail(rest[0], "statement after return")
@@ -399,14 +439,41 @@ func (c *codegen) seq(list []ast.Stmt, k cont) []string {
 		}
 		return c.seq(rest, k)
 	case *ast.RangeStmt:
+		if c.phase2 {
+			return c.loopStmt(x, x.Body, rest, k)
+		}
 		return append(c.rangeStmt(x), c.seq(rest, k)...)
+	case *ast.LabeledStmt:
+		if c.phase2 && len(c.cur.scopes) == 2 && len(c.cur.loops) == 0 {
+			if _, ok := c.cur.labels[x.Label.Name]; ok {
+				// reached by falling through: the label itself has no effect
+				return c.seq(append([]ast.Stmt{x.Stmt}, rest...), k)
+			}
+		}
+		c.fail(s, "labeled statement (only labels on statements of the function body)")
 	case *ast.BranchStmt:
+		if c.phase2 {
+			return c.branchStmt(x, rest)
+		}
 		c.fail(s, "%s statement (only a trailing break of a switch case is supported)", x.Tok)
 	case *ast.ForStmt:
+		if c.phase2 {
+			return c.forStmt(x, rest, k)
+		}
 		c.fail(s, "for loop (only `for _, x := range slice` is supported)")
 	case *ast.BlockStmt:
+		if c.phase2 {
+			// { … }: its own scope; the statements after it continue in the outer scope
+			depth := len(c.cur.scopes)
+			return c.block(x.List, func() []string {
+				saved := c.cur.scopes
+				c.cur.scopes = c.snapshotScopes()[:depth]
+				defer func() { c.cur.scopes = saved }()
+				return c.seq(rest, k)
+			})
+		}
 		c.fail(s, "nested block statement")
-	case *ast.GoStmt, *ast.DeferStmt, *ast.SelectStmt, *ast.SendStmt, *ast.TypeSwitchStmt, *ast.LabeledStmt:
+	case *ast.GoStmt, *ast.DeferStmt, *ast.SelectStmt, *ast.SendStmt, *ast.TypeSwitchStmt:
 		c.fail(s, "%T", s)
 	}
 	c.fail(s, "statement %T", s)
@@ -420,15 +487,18 @@ func (c *codegen) ifStmt(x *ast.IfStmt, rest []ast.Stmt, k cont) []string {
 	if x.Init != nil {
 		switch in := x.Init.(type) {
 		case *ast.AssignStmt:
-			lines = append(lines, c.assign(in)...)
+			al := c.assign(in)
+			lines = append(lines, c.flush(in)...)
+			lines = append(lines, al...)
 		default:
 			c.fail(x.Init, "init statement %T", x.Init)
 		}
 	}
 	cond := c.cond(x.Cond)
+	lines = append(lines, c.flush(x.Cond)...)
 	thenL, elseL := x.Body.List, elseList(x)
 
-	if !hasReturn(thenL) && !hasReturn(elseL) {
+	if !c.jumps(thenL) && !c.jumps(elseL) {
 		vars := c.assignedOuter(x, thenL, elseL)
 		// variables declared by the init statement are dead after the if
 		var live []string
@@ -437,24 +507,45 @@ func (c *codegen) ifStmt(x *ast.IfStmt, rest []ast.Stmt, k cont) []string {
 				live = append(live, v)
 			}
 		}
+		nb := c.cur.nbind
 		if len(live) == 0 {
 			// no effect outside: still translate (to check the subset), emit nothing
-			c.block(thenL, func() []string { return []string{"()"} })
-			c.block(elseL, func() []string { return []string{"()"} })
+			// unless a branch may panic
+			rhs := c.joinRhs(x, cond, func() []string { return []string{yieldMark + "()"} })
 			c.pop()
+			if c.cur.nbind != nb {
+				lines = append(lines, c.bindJoinRes(nil, resolveYield(rhs, true))...)
+			}
 			return append(lines, c.seq(rest, k)...)
 		}
-		rhs := c.joinRhs(x, cond, c.yield(live))
+		rhs := c.joinRhs(x, cond, c.yieldMarked(live))
 		c.pop()
-		lines = append(lines, c.bindJoin(live, rhs)...)
+		if c.cur.nbind != nb {
+			lines = append(lines, c.bindJoinRes(live, resolveYield(rhs, true))...)
+		} else {
+			lines = append(lines, c.bindJoin(live, resolveYield(rhs, false))...)
+		}
 		return append(lines, c.seq(rest, k)...)
 	}
 
 	// a branch returns: the continuation moves into the branches that fall through
+	usedSnap, tmpSnap := map[string]bool{}, c.cur.tmp
+	for n := range c.cur.used {
+		usedSnap[n] = true
+	}
 	restK := func() []string {
 		saved := c.cur.scopes
 		c.cur.scopes = c.snapshotScopes()[:outerDepth]
 		defer func() { c.cur.scopes = saved }()
+		if c.phase2 {
+			// every copy of the continuation is translated with the same names: the variables
+			// and temporaries of the branch it follows are dead, so re-using their names is harmless
+			c.cur.used = map[string]bool{}
+			for n := range usedSnap {
+				c.cur.used[n] = true
+			}
+			c.cur.tmp = tmpSnap
+		}
 		return c.seq(rest, k)
 	}
 	var a, b []string
@@ -598,6 +689,15 @@ func (c *codegen) rangeStmt(x *ast.RangeStmt) []string {
 	if st.kind != kSlice {
 		c.fail(x, "range over %s", st)
 	}
+	if len(c.cur.pre) != 0 {
+		c.fail(x, "range over an expression that may panic")
+	}
+	nbRange := c.cur.nbind
+	defer func() {
+		if c.cur != nil && c.cur.nbind != nbRange {
+			c.fail(x, "operation that may panic inside a range loop")
+		}
+	}()
 	if id := rootIdent(x.X); id != nil {
 		for _, v := range c.assignedOuter(x, x.Body.List) {
 			if v == id.Name {
@@ -709,7 +809,12 @@ func (c *codegen) path(e ast.Expr) (*varInfo, []string) {
 		return c.path(x.X)
 	case *ast.SelectorExpr:
 		v, p := c.path(x.X)
-		return v, append(p, x.Sel.Name)
+		fp, _ := c.fieldPath(c.pathType(v, p, e), x.Sel.Name, e)
+		return v, append(p, fp...)
+	case *ast.StarExpr:
+		if id, ok := x.X.(*ast.Ident); ok && c.phase2 && c.cur.recvVar == id.Name {
+			return c.path(x.X)
+		}
 	}
 	c.fail(e, "assignment target %s", c.src(e))
 	return nil, nil
@@ -761,6 +866,9 @@ func (c *codegen) assign(x *ast.AssignStmt) []string {
 			}
 		}
 		if len(x.Lhs) != len(x.Rhs) {
+			if c.phase2 && len(x.Rhs) == 1 {
+				return c.multiAssign(x)
+			}
 			c.fail(x, "assignment of a multi-valued call")
 		}
 		if len(x.Lhs) > 1 {
@@ -779,6 +887,9 @@ func (c *codegen) assign(x *ast.AssignStmt) []string {
 		var lines []string
 		for i := range x.Lhs {
 			lines = append(lines, c.assign1(x.Lhs[i], x.Rhs[i], def, x)...)
+			if i > 0 && len(c.cur.pre) != 0 {
+				c.fail(x, "parallel assignment with an operation that may panic or a call with effects")
+			}
 		}
 		return lines
 	case token.ADD_ASSIGN, token.SUB_ASSIGN, token.MUL_ASSIGN, token.AND_ASSIGN, token.OR_ASSIGN,
@@ -818,7 +929,22 @@ func (c *codegen) assign1(lhs, rhs ast.Expr, def bool, at ast.Node) []string {
 	}
 	v, p := c.path(lhs)
 	t := c.pathType(v, p, lhs)
-	val, vt := c.expr(rhs, t, true)
+	if c.phase2 && len(p) == 0 {
+		if id, ok := lhs.(*ast.Ident); ok {
+			for _, sp := range c.cur.sig.params {
+				if sp.name == id.Name && sp.out && c.lookup(id.Name).depth == 0 {
+					c.fail(at, "assignment to the parameter %s, which the function also copies into", id.Name)
+				}
+			}
+		}
+	}
+	var val string
+	var vt gtype
+	if call, ok := rhs.(*ast.CallExpr); ok && c.phase2 && isBuiltin(call, "append") && c.lookup("append") == nil {
+		val, vt = c.appendCall(call, c.src(lhs))
+	} else {
+		val, vt = c.expr(rhs, t, true)
+	}
 	if !vt.eq(t) {
 		c.fail(at, "assignment of %s to %s of type %s", vt, c.src(lhs), t)
 	}
@@ -832,6 +958,15 @@ func (c *codegen) exprStmt(x *ast.ExprStmt) []string {
 	}
 	switch f := call.Fun.(type) {
 	case *ast.Ident:
+		if c.phase2 && c.lookup(f.Name) == nil {
+			if f.Name == "copy" {
+				c.copyCall(call) // the count is dropped, the effect is in the hoisted lines
+				return nil
+			}
+			if c.whiteSet[fnKey{"", f.Name}] && c.reflOf(f.Name) == nil {
+				return c.callStmt2(x, call)
+			}
+		}
 		if ri := c.reflOf(f.Name); ri != nil && c.lookup(f.Name) == nil {
 			if !ri.setter {
 				c.fail(x, "result of %s discarded", f.Name)
@@ -844,6 +979,9 @@ func (c *codegen) exprStmt(x *ast.ExprStmt) []string {
 		}
 		if rootIdent(f.X) == nil {
 			break
+		}
+		if c.phase2 {
+			return c.callStmt2(x, call)
 		}
 		v, p := c.path(f.X)
 		t := c.pathType(v, p, x)
@@ -869,6 +1007,9 @@ func (c *codegen) exprStmt(x *ast.ExprStmt) []string {
 }
 
 func (c *codegen) ret(x *ast.ReturnStmt) []string {
+	if c.phase2 {
+		return c.ret2(x)
+	}
 	f := c.cur
 	switch len(x.Results) {
 	case 0:
@@ -994,6 +1135,21 @@ func (c *codegen) function(k fnKey) fnOut {
 	body := c.seq(fd.Body.List, end)
 	c.pop()
 	c.pop()
+	{ // signature, for calls from the second part
+		fs := &fnSig{recvMut: f.recvMut}
+		if fd.Recv != nil {
+			fs.recv = c.typeOf(fd.Recv.List[0].Type, fd)
+		}
+		for _, p := range fd.Type.Params.List {
+			for _, n := range p.Names {
+				fs.params = append(fs.params, sparam{n.Name, c.typeOf(p.Type, fd), false})
+			}
+		}
+		if f.result.kind != kInvalid {
+			fs.results = []sresult{{"", f.result}}
+		}
+		c.sigs[k] = fs
+	}
 	var out []string
 	out = append(out, fmt.Sprintf("/-- `%s` — %s -/", sig, c.pos(fd)))
 	out = append(out, fmt.Sprintf("def %s %s : %s :=", leanFn(k), strings.Join(params, " "), rt.lean()))
